@@ -13,10 +13,11 @@ use crate::spec::{madctl_spec, Canvas, Geo};
 
 pub const ENTRY: Entry = Entry {
     id: "C10",
-    variants: &["batch"],
+    variants: &["batch", "nobatch"],
     level: "model_checking",
     rule: "explicit-state closure (stateright BFS, 1 and 16 threads compared): roots = non-square windows with asymmetric non-zero \
-           offsets x 8 initial orientations x 2 colour orders x 4 refresh orders; actions = set_orientation(o) for all 8 values; \
+           offsets x 8 initial orientations x 2 colour orders x 4 refresh orders on the external model, plus every built-in model \
+           with non-default colour/refresh order (both `batch` settings); actions = set_orientation(o) for all 8 values; \
            every transition replays the history on a fresh real display. State key = private driver state (hook) + device MADCTL. \
            Invariants in every state: orientation()/size()/bounding_box() agree with the last orientation set; device MADCTL == \
            specification encoding with colour/refresh bits preserved; private state == that of a freshly built twin with that \
@@ -173,6 +174,14 @@ pub fn roots(quick: bool) -> Vec<Cfg> {
     let mut c = Cfg::tiny(4, 3, true, Transport::RecSerial, (3, 2, 1, 0), 6);
     c.refresh = 1;
     v.push(c);
+    // every built-in model (its own init decides the cached address mode), non-default colour / refresh order
+    for (i, info) in BUILTINS.iter().enumerate() {
+        let (fw, fh) = info.fb;
+        let tr = if info.supports[0] { Transport::RecSerial } else { Transport::RecPar8 };
+        for (o, refresh) in [(0u8, 1u8), (5, 2), (2, 3)] {
+            v.push(Cfg { model: ModelId::Builtin(i as u8), tr, win: Some((6, 5, fw - 9, 3)), orient: o, bgr: true, invert: false, refresh, rst: false });
+        }
+    }
     v
 }
 
